@@ -6,7 +6,7 @@ import re
 
 from .. import efg as _efg
 from ..pyfacts import AnalysisError, src
-from ..genfacts import GenFacts, GEN, STDLIB
+from ..genfacts import new_codegen, GenFacts, GEN, STDLIB
 from ..asmtext import AsmText, parse_offset
 from ..consteval import Interp
 from ..report import Remap
@@ -176,7 +176,7 @@ def run(repo, chk):
     CAT, AM, ATy = sym['ConcreteArrayType'], sym['AccessMode'], astns['ArrayType']
 
     def fresh(w):
-        g = object.__new__(CG)
+        g = new_codegen(CG)
         g.word_size = w
         g.stack = SP()
         g.checkpoints = Tracker()
@@ -481,7 +481,7 @@ def run(repo, chk):
             pass
 
         def world():
-            g = object.__new__(gns['CodeGen'])
+            g = new_codegen(gns['CodeGen'])
             g.word_size = 2
             g.stack = gns['StackPoint']()
             g.state_data, g.const_data, g.numbered_labels, g.string_labels, g.global_vars = {}, {}, {}, {}, {}
@@ -542,7 +542,7 @@ def run(repo, chk):
             break
 
     # one specialisation (label, queue entry) per distinct concrete signature; labels are distinct
-    g = object.__new__(CG)
+    g = new_codegen(CG)
     from collections import deque
     g.func_labels, g.func_queue, g.numbered_labels = {}, deque(), {}
     CS, Ident = sym['ConcreteSignature'], astns['Ident']
@@ -617,7 +617,7 @@ def function_queue(repo, chk, gf, rule='C01.A1'):
         pass
     bad = None
     try:
-        g = object.__new__(CG)
+        g = new_codegen(CG)
         g.func_labels, g.func_queue, g.func_table, g.numbered_labels = {}, collections.deque(), {}, {}
         g.env = _O()
         sigs = [CS(A.Ident.you('is_you'), ()), CS(A.Ident('f'), (DT.INT,)), CS(A.Ident('g'), ()), CS(A.Ident('f'), (DT.BYTE,))]
@@ -671,7 +671,7 @@ def entry_binding(repo, chk, gf, rule='C01.A1'):
         return p
 
     def run_entry(params):
-        g = object.__new__(CG)
+        g = new_codegen(CG)
         g.word_size, g.stack_size, g.unchecked = 2, 50, False
         g.env = _O()
         decl = _O()
